@@ -1339,6 +1339,9 @@ func (st *Runtime) evaluateArgs(fnType reflect.Type, args CallArgs, pipedArg *re
 			return nil, fmt.Errorf("piped first argument for %s is not a valid value", fnType)
 		}
 		if !(*pipedArg).Type().AssignableTo(in) {
+			if !(*pipedArg).Type().ConvertibleTo(in) {
+				return nil, fmt.Errorf("piped first argument for %s: can't use %s as %s", fnType, (*pipedArg).Type(), in)
+			}
 			*pipedArg = (*pipedArg).Convert(in)
 		}
 		argValues[slot] = *pipedArg
@@ -1359,6 +1362,9 @@ func (st *Runtime) evaluateArgs(fnType reflect.Type, args CallArgs, pipedArg *re
 			return nil, fmt.Errorf("argument for position %d in %s is not a valid value", slot, fnType)
 		}
 		if !term.Type().AssignableTo(in) {
+			if !term.Type().ConvertibleTo(in) {
+				return nil, fmt.Errorf("argument for position %d in %s: can't use %s as %s", slot, fnType, term.Type(), in)
+			}
 			term = term.Convert(in)
 		}
 		argValues[slot] = term
@@ -1379,6 +1385,9 @@ func (st *Runtime) evaluateArgs(fnType reflect.Type, args CallArgs, pipedArg *re
 				return nil, fmt.Errorf("argument for position %d in %s is not a valid value", slot, fnType)
 			}
 			if !term.Type().AssignableTo(in) {
+				if !term.Type().ConvertibleTo(in) {
+					return nil, fmt.Errorf("argument for position %d in %s: can't use %s as %s", slot, fnType, term.Type(), in)
+				}
 				term = term.Convert(in)
 			}
 			argValues[slot] = term
